@@ -55,6 +55,9 @@ CHECKS = {
  "C20": (True, "E1", "exploration", E1 + "; symbolic samples for the linear tools",
   "Moving averages (deque, recursive/feedback, fir) x sizes 1..8 x five zero kinds x lengths on symbolic input against the windowed mean (exact for power-of-two sizes, 4 ulp per coefficient otherwise), one filter object applied to two signals consumed in interleaved orders, all accumulate strategies on symbolic input incl. the empty input; amdf and the three envelope strategies on all sequences of length <=5 (6) over {-2,-1,0,1/2,1,3}; clip (all 16 limit pairs, idempotence, inverted limits), zcross (3 hysteresis x 6 first_sign values against a reference sign automaton) and unwrap (5 (max_delta, step) pairs: multiples of step, untouched when no jump, bounded adjacent jumps) on all sequences of length <=6 (7).",
   "Sample alphabet for the non-linear tools; float 1./size rounding bounded, not exact, for non-power-of-two sizes."),
+ "C14": (True, "E1", "exploration", E1 + "; float comparison under bounds derived from argument rounding",
+  "Every strategy name and alias of window and wsymm (iterated from the dictionaries) x every size 1..512 (thorough 2048) x alpha grids for blackman and cos, each size asked for several alphas in sequence and twice in the same process: length, exact equality of window.X(size) with wsymm.X(size+1)[:size], symmetry, wsymm.X(1) == [1.0], range, documented closed form typed independently (64 ulp), independence of returned lists; hop-shifted sums for hann/hamming/bartlett/rect(+aliases) at size/2 and hann/hamming/blackman at size/4 for every admissible size; alias table and periodic/symm cross references.",
+  "Grid of alphas (cos alpha >= 1); tolerances 64/256 ulp derived from the rounding of the cosine arguments."),
 }
 
 NOT_YET = "check not built yet in this session; see DESIGN.md section 4 for the planned model-checking harness"
